@@ -5,7 +5,7 @@
 EXTENDS JetProg
 CONSTANTS Depth, Families     \* Families: subset of {"site", "top"}
 
-Ops == {"Let-s", "Let-x3", "Set-s", "Set-p", "Set-undef", "SetOrLet-s", "SetOrLet-x3", "SetOrLet-g", "SetOrLet-p", "LetGlobal-x3", "LetGlobal-s", "Yield-yc",
+Ops == {"Let-s", "Let-x3", "Set-s", "Set-p", "Set-undef", "SetOrLet-s", "SetOrLet-x3", "SetOrLet-g", "SetOrLet-p", "LetGlobal-x3", "LetGlobal-s", "Yield-yc", "Yield-ycdef", "SetOrLet-nil", "Set-undef-nil",
         "Resolve-s", "Resolve-g", "Resolve-undef", "Context", "Yield-ctx", "Yield-noctx", "Yield-undef", "tl-let", "tl-set"}
 SiteKinds == {"range", "rangekv", "ycont", "ybody", "include", "includectx", "iflet", "let", "blockdef", "tryin"}
 
@@ -20,6 +20,9 @@ OpStmt(o, i) ==
     [] o = "SetOrLet-x3"  -> Api(id, "SetOrLet", "x3", Lit("O" \o ToString(i)))
     [] o = "SetOrLet-g"   -> Api(id, "SetOrLet", "g", Lit("O" \o ToString(i)))
     [] o = "SetOrLet-p"   -> Api(id, "SetOrLet", "p", Lit("O" \o ToString(i)))
+    \* the untyped nil as the value: SetOrLet declares the variable (holding nil) like x3 := nil, Set still fails
+    [] o = "SetOrLet-nil" -> Api(id, "SetOrLet", "x3", Lit(Nil))
+    [] o = "Set-undef-nil" -> Api(id, "Set", "r", Lit(Nil))
     [] o = "LetGlobal-x3" -> Api(id, "LetGlobal", "x3", Lit("G" \o ToString(i)))
     [] o = "LetGlobal-s"  -> Api(id, "LetGlobal", "s", Lit("G" \o ToString(i)))
     [] o = "Resolve-s"    -> Api(id, "Resolve", "s", NoE)
@@ -30,6 +33,8 @@ OpStmt(o, i) ==
     [] o = "Yield-noctx"  -> Api(id, "YieldBlock", "ab", NoE)
     \* the yielded block renders {{yield content}}: YieldBlock leaves the enclosing content as it is
     [] o = "Yield-yc"     -> Api(id, "YieldBlock", "aby", NoE)
+    \* ... also when the block declares a {{content}} section of its own (that one is for its definition site only)
+    [] o = "Yield-ycdef"  -> Api(id, "YieldBlock", "abyc", NoE)
     [] o = "Yield-undef"  -> Api(id, "YieldBlock", "nosuchblock", NoE)
     [] o = "tl-let"       -> LetS(id, "x3", Lit("T" \o ToString(i)))
     [] o = "tl-set"       -> SetS(id, "s", Lit("T" \o ToString(i)))
@@ -59,7 +64,8 @@ MkC(par) ==
       r     == Build(path, 1, focal)
       main  == <<T("pre"), LetS("ls", "s", Lit("s0"))>> \o r.main \o Reads("z") \o <<T("post")>>
       lib   == Tm("lib", "", <<>>, r.bl \o <<BlockS("abd", "ab", <<>>, NoE, <<T("AB("), P("abc", Ctx), P("abs", Var("s")), T(")")>>),
-                                        BlockS("abyd", "aby", <<>>, NoE, <<T("ABY("), YContent("abyy"), T(")")>>)>>)
+                                        BlockS("abyd", "aby", <<>>, NoE, <<T("ABY("), YContent("abyy"), T(")")>>),
+                                        BlockC("abycd", "abyc", <<>>, NoE, <<T("ABYC("), YContent("abycy"), T(")")>>, <<T("DEFAULT")>>)>>)
   IN [ts |-> <<Tm("main", "", <<"lib">>, main), lib>> \o r.ts,
       globals |-> [NoVarsMap EXCEPT !["g"] = "glG"],
       \* the second execution has no data: '.' is invalid at the call site and must be so again after the call
